@@ -450,7 +450,7 @@ func c17Rotation(t *testing.T, rep *Report) {
 			}
 		}
 		for _, ph := range states {
-			for _, label := range []string{"", "lbl", "+secretkey"} {
+			for _, label := range []string{"", "lbl", "+secretkey", "+emptyring+secretkey"} {
 				caseIdx++
 				if !mine(caseIdx) {
 					continue
@@ -462,9 +462,17 @@ func c17Rotation(t *testing.T, rep *Report) {
 					nodes := make([]*node, n)
 					for i := 0; i < n; i++ {
 						kr, _ := ml.NewKeyring(nil, oldK)
+						if label == "+emptyring+secretkey" && i == 0 {
+							// the application creates its ring empty and names the key in the config
+							kr, _ = ml.NewKeyring(nil, nil)
+						}
 						nd, err := newNode(fmt.Sprintf("n%d", i), ip4(byte(i+1)), func(c *ml.Config) {
 							c.Keyring = kr
-							if label == "+secretkey" {
+							if label == "+emptyring+secretkey" {
+								if i == 0 {
+									c.SecretKey = oldK
+								}
+							} else if label == "+secretkey" {
 								// one application hands over its ring AND names the current key (the others
 								// hand over a ring only); each keeps rotating through the ring object it created
 								if i == 0 {
@@ -478,6 +486,9 @@ func c17Rotation(t *testing.T, rep *Report) {
 							panic(err)
 						}
 						nodes[i] = b.track(nd)
+						if pk := kr.GetPrimaryKey(); !bytes.Equal(pk, oldK) {
+							rep.Violate("rotation-ring-detached", fmt.Sprintf("n=%d label=%q node %d: after Create the application's ring has primary %x, the node was told to use %x", n, label, i, pk, oldK), map[string]any{"n": n, "phases": ph, "label": label})
+						}
 						// perform the phases through the real API, in order
 						if ph[i] >= 1 {
 							must(kr.AddKey(newK))
